@@ -62,7 +62,7 @@ def _cached_verus(src, text, **kw):
     return js, diags, wall, cmd, proc
 
 
-def run_unit(unit, repo, tier, vacuity=True):
+def run_unit(unit, repo, tier, vacuity=True, _retry=False):
     os.makedirs(BUILD, exist_ok=True)
     text, linemap, log, extracted = vr.build_unit(unit, repo, ROOT)
     src = os.path.join(BUILD, unit + ".rs")
@@ -104,6 +104,24 @@ def run_unit(unit, repo, tier, vacuity=True):
                 if n_.split("::")[-1] in pending and n_ in funcs:
                     funcs[n_]["success"] = f_["success"] and n_.split("::")[-1] not in undecided_fns
         hard = []
+    if hard and not _retry:
+        # front-end rejection (type error, unsupported construct) inside extracted functions: leave exactly those
+        # functions out (contract assumed, run undecided for them) and decide the rest
+        import weave as _weave
+        culprits = {}
+        for h in hard:
+            fn_ = vr.enclosing_fn(text, h["line"]) if h.get("line") else "?"
+            cands = [x["name"] for x in extracted if x["name"].split("::")[-1].split("<")[0] == fn_ and not x.get("external_body")]
+            if len(cands) != 1:
+                culprits = None
+                break
+            culprits[cands[0]] = "rejected by the verifier's front end: %s @ %s" % (h["message"][:200], h["text"][:120])
+        if culprits:
+            _weave.set_force_degrade(culprits)
+            try:
+                return run_unit(unit, repo, tier, vacuity=vacuity, _retry=True)
+            finally:
+                _weave.set_force_degrade(None)
     if hard:
         raise Undecided("unit %s: verus front-end/resource error: %s" % (unit, hard[0]["message"] + " @ " + hard[0]["text"][:200]))
     if not vres or (not funcs):
@@ -223,6 +241,7 @@ def _check(prop, tier, seed, repo, vacuity=True, update_baseline=False):
         basefile = os.path.join(ROOT, "units", unit, "baseline.json")
         only = cfg.get("functions", {}).get(unit)
         excl = set(cfg.get("exclude_functions", {}).get(unit, []))
+        pins_ = set(cfg.get("pin_functions", {}).get(unit, []))
         if update_baseline:
             json.dump({"passing": sorted(n for n, f in r["funcs"].items() if f["success"])}, open(basefile, "w"), indent=1)
         baseline = set(_load_json(basefile, {"passing": []})["passing"])
@@ -242,6 +261,13 @@ def _check(prop, tier, seed, repo, vacuity=True, update_baseline=False):
                 verus_total += 1
                 if len(samples) < 6 and f["mode"] == "exec":
                     samples.append({"unit": unit, "obligation": name, "mode": f["mode"], "smt_time_ms": round(f["time_us"] / 1000, 1), "result": "discharged by Verus/Z3"})
+                continue
+            # a "shape pin": the function's contract restates what the code builds today (e.g. the combinator tree of a
+            # policy fragment); if it no longer holds, the spec the dependent obligations were written against is out of
+            # date - that is not a violation of the property, the run is undecided and the bounded fallback decides
+            if name in pins_:
+                undecided.append("unit %s: %s no longer has the shape its contract pins (%s): obligations that rely on it are undecided"
+                                 % (unit, name, (errs[0]["message"] if errs else "failed")))
                 continue
             # failed function: each error is an obligation
             if short in r.get("undecided_fns", {}) and not errs:
@@ -320,19 +346,23 @@ def _check(prop, tier, seed, repo, vacuity=True, update_baseline=False):
     elif tier == "thorough" and not violations and cfg.get("native_thorough"):
         # thorough tier: the bounded enumeration also runs as a (labelled) bounded check of the clauses no contract covers
         run_native = cfg["native_thorough"]
-    if run_native:
-        test = run_native
+    for test in ([run_native] if isinstance(run_native, str) else (run_native or [])):
         try:
             import native_run
             cexn = native_run.find_cex(test, repo)
             _NATIVE_CACHE[test] = cexn
-            native_fb = {"test": test, "bound": native_run.BOUNDS.get(test, ""), "status": "FAILS" if cexn else "no failing input in the enumerated family"}
+            one = {"test": test, "bound": native_run.BOUNDS.get(test, ""), "status": "FAILS" if cexn else "no failing input in the enumerated family"}
             if cexn:
                 violations.append({"unit": "native", "function": test, "engine": "native-bounded",
                                    "errors": [{"message": "bounded native enumeration found failing inputs (run because: %s)" % (undecided[0][:300] if undecided else "thorough tier"), "text": "; ".join(cexn["failing_inputs"][:3]),
                                                "rendered": "\n".join(cexn["failing_inputs"])}], "cex": cexn})
         except Exception as e:  # noqa
-            native_fb = {"test": test, "status": "could not run: %s" % e}
+            one = {"test": test, "status": "could not run: %s" % e}
+        if native_fb is None:
+            native_fb = one
+        else:
+            native_fb = {"test": native_fb["test"] + " + " + one["test"], "bound": native_fb.get("bound", "") + " || " + one.get("bound", ""),
+                         "status": native_fb["status"] + " || " + one["status"]}
 
     # known findings: each listed finding must still be observed? No: a fixed defect simply stops appearing.
     printed = set()
@@ -415,6 +445,10 @@ def _try_cex(prop, cfg, v, repo):
     if not h and cfg.get("native_cex"):
         # a native oracle on the real code (run once per check, only now that an obligation has failed)
         test = cfg["native_cex"]
+        if isinstance(test, dict):
+            test = test.get(v["function"]) or test.get(v["function"].split("::")[0] + "::*") or test.get("*")
+            if not test:
+                return None
         if test not in _NATIVE_CACHE:
             try:
                 import native_run
